@@ -9,6 +9,8 @@ MCNext == \E g \in Inst :
             \/ NextU32(g) /\ PrintT(<<"J", St, "next_u32", g, 0, St2>>)
             \/ NextU64(g) /\ PrintT(<<"J", St, "next_u64", g, 0, St2>>)
             \/ SetRounds(g) /\ PrintT(<<"J", St, "set_rounds", g, 0, St2>>)
+            \/ TimerStats(g) /\ PrintT(<<"J", St, "timer_stats", g, 0, St2>>)
+            \/ TestTimer(g) /\ PrintT(<<"J", St, "test_timer", g, 0, St2>>)
             \/ \E n \in FillLens : Fill(g, n) /\ PrintT(<<"J", St, "fill_bytes", g, n, St2>>)
             \/ \E h \in Inst : Clone(g, h) /\ PrintT(<<"J", St, "clone", g, h, St2>>)
             \/ \E h \in Inst : CloneFrom(g, h) /\ PrintT(<<"J", St, "clone_from", g, h, St2>>)
